@@ -1209,15 +1209,21 @@ def run(out: Outcome) -> None:  # noqa: PLR0912, PLR0915
     sweep_stats = {"finditer": 0, "per_char": 0, "cached": 0}
     samples = []
     results = []
+    phase = {}
     with mp.Pool(NCPU) as pool:
+        t1 = time.time()
         for rs, st in pool.imap_unordered(_worker, jobs):
             for k in sweep_stats:
                 sweep_stats[k] += st.get(k, 0)
             results += rs
+        phase["patterns_s"] = round(time.time() - t1, 1)
+        t1 = time.time()
         # tables + the class builder on its own
         ccount = 6000 if thorough else 1200
         cjobs = [(seed() * 31 + 1000 + i, ccount // NCPU + 1, (40 if thorough else 8)) for i in range(NCPU)]
         class_res = pool.map(_class_worker, cjobs)
+        phase["char_class_s"] = round(time.time() - t1, 1)
+        t1 = time.time()
         # the slow path on a few patterns: 1 114 112 real parse() calls per mode, split over the pool
         full_cases = [c for c in cases if c["family"] in ("ascii", "class-special", "merge", "ci", "skip", "newline", "order")]
         rng2 = random.Random(seed() * 13 + 5)
@@ -1232,6 +1238,7 @@ def run(out: Outcome) -> None:  # noqa: PLR0912, PLR0915
         full_sets: dict = {}
         for g, mode, ivs, odd in pool.imap_unordered(_full_worker, fjobs):
             full_sets.setdefault((g, mode), []).extend(ivs or [])
+        phase["full_parse_s"] = round(time.time() - t1, 1)
     for r in results:
         c = r["case"]
         fam_count[c["family"]] = fam_count.get(c["family"], 0) + 1
@@ -1385,6 +1392,7 @@ def run(out: Outcome) -> None:  # noqa: PLR0912, PLR0915
         "escapes": esc_info,
         "tables_regenerated": exp["changed"],
         "proof_stage_s": round(t_proof, 1),
+        "phase_s": phase,
     }
     out.assumptions = [
         "what the `regex` engine does with a class string, re.I and \\p{…} is not modelled in Lean; it is observed exhaustively "
